@@ -116,6 +116,9 @@ ParamIdx(M, t) ==                 \* 0 if t is not a parameter of M
   ELSE IF M.va /\ t.s = VA THEN Len(M.params) + 1
   ELSE 0
 
+(* Besides the tokens every operator returns a set of FEATURES: facts about the reference          *)
+(* expansion (which rules of 6.10.3 the case exercises).  They are emitted with the case, counted  *)
+(* in the evidence, and let the harness say precisely which input family a finding key covers.     *)
 (* ---- stringize (6.10.3.2): spelling of the argument, one space where white space was, " and \    *)
 (* ---- of string literals and character constants escaped                                          *)
 EscTok(t) == IF t.k \in {"str", "chr"}
@@ -125,6 +128,12 @@ Stringize(arg, ws) ==
   IF AnyErr(arg) THEN FirstErr(arg)
   ELSE IF VarWs /\ \E i \in 1..Len(arg) : arg[i].hs # {} THEN ErrTok("U")   \* spacing of tokens that come out of an expansion is not modelled
   ELSE Tok("str", <<"@">> \o Flat([i \in 1..Len(arg) |-> (IF i > 1 /\ arg[i].ws THEN <<" ">> ELSE <<>>) \o EscTok(arg[i])]) \o <<"@">>, ws)
+HasBackslash(t) == t.k \in {"str", "chr"} /\ \E i \in 1..Len(t.s) : t.s[i] = "$"
+EscLike == {"$", "a", "b", "f", "n", "r", "v", "t", "?", "e", "0", "1", "2", "3", "4", "5", "6", "7", "x", "X"}
+StrFeat(arg) ==
+  {"str"} \cup (IF arg = <<>> THEN {"str_empty"} ELSE {})
+  \cup (IF \E i \in 1..Len(arg) : arg[i].k \in {"str", "chr"} THEN {"str_lit"} ELSE {})
+  \cup (IF \E i \in 1..(Len(arg) - 1) : HasBackslash(arg[i]) /\ arg[i + 1].s[1] \in EscLike THEN {"str_bsl_next"} ELSE {})
 
 (* ---- glue (6.10.3.3): paste the last token of ls with the first of rs *)
 Paste(C, L, R) ==
@@ -138,88 +147,129 @@ Paste(C, L, R) ==
                THEN ErrTok("U")                                           \* whether the new name is painted is not determined
           ELSE [k |-> k, s |-> sp, hs |-> L.hs \cap R.hs, ws |-> L.ws]
 Glue(C, ls, rs) == Front(ls) \o <<Paste(C, Last(ls), Head(rs))>> \o Tail(rs)
+PasteFeat(C, L, R) ==
+  {"paste"} \cup (IF L.k = "plm" \/ R.k = "plm" THEN {"paste_plm"} ELSE {})
+  \cup (IF L.k = "plm" /\ R.k = "plm" THEN {"paste_plm2"} ELSE {})
+  \cup (IF L.k \notin {"plm", "err"} /\ R.k \notin {"plm", "err"} /\ DefIdx(C, L.s \o R.s) # 0 THEN {"paste_makes_macro"} ELSE {})
 
 HsAdd(hs, ts) == [i \in 1..Len(ts) |-> [ts[i] EXCEPT !.hs = @ \cup hs]]
 NoPlm(ts) == SelectSeq(ts, LAMBDA t : t.k # "plm")
 OrPlm(arg) == IF arg = <<>> THEN <<Plm>> ELSE arg
 
-(* ---- collecting the arguments of an invocation; ts[i0-1] is the opening parenthesis.            *)
+(* ---- collecting the arguments of an invocation; ts[1] is the opening parenthesis.               *)
 (* ---- Commas split only while fewer than nsplit arguments are complete (variable arguments).     *)
-RECURSIVE Scan(_, _, _, _, _, _)
-Scan(ts, i, depth, cur, args, nsplit) ==
+(* ---- gap = the largest number of replacement lists that end between two consecutive tokens      *)
+RECURSIVE Scan(_, _, _, _, _, _, _, _)
+Scan(ts, i, depth, cur, args, nsplit, prevhs, gap) ==
   IF i > Len(ts) THEN [ok |-> FALSE]
-  ELSE LET t == ts[i] IN
-    IF IsPu(t, <<"(">>) THEN Scan(ts, i + 1, depth + 1, Append(cur, t), args, nsplit)
+  ELSE LET t == ts[i]
+           g2 == IF Cardinality(prevhs \ t.hs) > gap THEN Cardinality(prevhs \ t.hs) ELSE gap
+       IN
+    IF IsPu(t, <<"(">>) THEN Scan(ts, i + 1, depth + 1, Append(cur, t), args, nsplit, t.hs, g2)
     ELSE IF IsPu(t, <<")">>) THEN
-      IF depth = 0 THEN [ok |-> TRUE, args |-> Append(args, cur), nxt |-> i + 1, rhs |-> t.hs]
-      ELSE Scan(ts, i + 1, depth - 1, Append(cur, t), args, nsplit)
-    ELSE IF IsPu(t, <<",">>) /\ depth = 0 /\ Len(args) < nsplit THEN Scan(ts, i + 1, 0, <<>>, Append(args, cur), nsplit)
-    ELSE Scan(ts, i + 1, depth, Append(cur, t), args, nsplit)
+      IF depth = 0 THEN [ok |-> TRUE, args |-> Append(args, cur), nxt |-> i + 1, rhs |-> t.hs, gap |-> g2]
+      ELSE Scan(ts, i + 1, depth - 1, Append(cur, t), args, nsplit, t.hs, g2)
+    ELSE IF IsPu(t, <<",">>) /\ depth = 0 /\ Len(args) < nsplit THEN Scan(ts, i + 1, 0, <<>>, Append(args, cur), nsplit, t.hs, g2)
+    ELSE Scan(ts, i + 1, depth, Append(cur, t), args, nsplit, t.hs, g2)
 
 ArgsOk(M, args) ==                \* 6.10.3p4: argument count
   IF M.va THEN Len(args) = Len(M.params) + 1
   ELSE IF Len(M.params) = 0 THEN args = <<<<>>>>
   ELSE Len(args) = Len(M.params)
 
-RECURSIVE Expand(_, _), Subst(_, _, _, _, _)
+Res(o, f) == [o |-> o, f |-> f]
+RECURSIVE Expand(_, _), Subst(_, _, _, _, _, _)
 
 (* ---- subst: the replacement list of M with actuals ap; returns the token list before hsadd,     *)
 (* ---- placemarkers still in it                                                                    *)
-Subst(C, M, ap, i, os) ==
+SharpRun(M, i) ==                 \* after "# p" at i, i+1: only non-parameter identifiers up to another parameter
+  \E j \in (i + 2)..Len(M.body) :
+     /\ ParamIdx(M, M.body[j]) > 0
+     /\ \A k \in (i + 2)..(j - 1) : M.body[k].k = "id" /\ ParamIdx(M, M.body[k]) = 0
+Subst(C, M, ap, i, os, fs) ==
   LET B == M.body
       n == Len(B)
-  IN IF i > n THEN os
+  IN IF i > n THEN Res(os, fs)
      ELSE LET T == B[i]
               p == IF M.fl THEN ParamIdx(M, T) ELSE 0
           IN IF M.fl /\ IsPu(T, <<"#">>) /\ i < n /\ ParamIdx(M, B[i + 1]) > 0              \* # parameter
-             THEN Subst(C, M, ap, i + 2, Append(os, Stringize(ap[ParamIdx(M, B[i + 1])], T.ws)))
+             THEN LET arg == ap[ParamIdx(M, B[i + 1])] IN
+                  Subst(C, M, ap, i + 2, Append(os, Stringize(arg, T.ws)),
+                        fs \cup StrFeat(arg) \cup (IF SharpRun(M, i) THEN {"str_then_param"} ELSE {}))
              ELSE IF IsPu(T, <<"#", "#">>) /\ i < n                                          \* ## operand
              THEN LET U == B[i + 1]
                       q == IF M.fl THEN ParamIdx(M, U) ELSE 0
+                      rs == IF q > 0 THEN OrPlm(ap[q]) ELSE <<U>>
+                      chain == /\ i >= 3 /\ IsPu(B[i - 2], <<"#", "#">>)                     \* X ## p ## q with p and q empty
+                               /\ q > 0 /\ ap[q] = <<>>
+                               /\ M.fl /\ ParamIdx(M, B[i - 1]) > 0 /\ ap[ParamIdx(M, B[i - 1])] = <<>>
                   IN IF M.fl /\ IsPu(U, <<"#">>) /\ i + 1 < n /\ ParamIdx(M, B[i + 2]) > 0
-                     THEN Append(os, ErrTok("U"))                                            \* ## # x : order of # and ## (6.10.3.2p2)
-                     ELSE Subst(C, M, ap, i + 2, Glue(C, os, IF q > 0 THEN OrPlm(ap[q]) ELSE <<U>>))
+                     THEN Res(Append(os, ErrTok("U")), fs)                                   \* ## # x : order of # and ## (6.10.3.2p2)
+                     ELSE Subst(C, M, ap, i + 2, Glue(C, os, rs),
+                                fs \cup PasteFeat(C, Last(os), Head(rs)) \cup (IF chain THEN {"paste_plm_chain"} ELSE {}))
              ELSE IF p > 0 /\ i < n /\ IsPu(B[i + 1], <<"#", "#">>)                          \* parameter ##  : not expanded
-             THEN Subst(C, M, ap, i + 1, os \o OrPlm(ap[p]))
-             ELSE IF p > 0 THEN Subst(C, M, ap, i + 1, os \o Expand(C, ap[p]))               \* fully macro-replaced argument
-             ELSE Subst(C, M, ap, i + 1, Append(os, T))
+             THEN Subst(C, M, ap, i + 1, os \o OrPlm(ap[p]), fs)
+             ELSE IF p > 0 THEN                                                              \* fully macro-replaced argument
+                  LET r == Expand(C, ap[p]) IN
+                  Subst(C, M, ap, i + 1, os \o r.o,
+                        fs \cup r.f \cup (IF ap[p] = <<>> THEN {"arg_empty"} ELSE {})
+                           \cup (IF r.f \cap {"obj", "fn"} # {} THEN {"arg_preexpanded"} ELSE {})
+                           \cup (IF ap[p] # <<>> /\ Last(ap[p]).k = "id" /\ DefIdx(C, Last(ap[p]).s) # 0 /\ C.env[DefIdx(C, Last(ap[p]).s)].fl
+                                    /\ r.o # <<>> /\ Last(r.o).s = Last(ap[p]).s
+                                 THEN {"arg_ends_with_fn_name"} ELSE {}))
+             ELSE Subst(C, M, ap, i + 1, Append(os, T), fs)
 
 HashPasteAdj(M) ==                \* "# x ##" in the list: order of evaluation of # and ## unspecified
   M.fl /\ \E i \in 1..(Len(M.body) - 2) :
              IsPu(M.body[i], <<"#">>) /\ ParamIdx(M, M.body[i + 1]) > 0 /\ IsPu(M.body[i + 2], <<"#", "#">>)
 
 Replace(C, M, ap, hs) ==
-  IF HashPasteAdj(M) THEN <<ErrTok("U")>>
-  ELSE HsAdd(hs, NoPlm(Subst(C, M, ap, 1, <<>>)))
+  IF HashPasteAdj(M) THEN Res(<<ErrTok("U")>>, {})
+  ELSE LET r == Subst(C, M, ap, 1, <<>>, {}) IN Res(HsAdd(hs, NoPlm(r.o)), r.f)
 
 (* ---- expand: Prosser's main loop over a token sequence followed by nothing *)
 Expand(C, ts) ==
-  IF ts = <<>> THEN <<>>
+  IF ts = <<>> THEN Res(<<>>, {})
   ELSE LET T == Head(ts)
            R == Tail(ts)
            d == IF T.k = "id" THEN DefIdx(C, T.s) ELSE 0
-       IN IF d = 0 \/ T.s \in T.hs THEN <<T>> \o Expand(C, R)                                \* not a macro, or painted blue
+       IN IF d = 0 \/ T.s \in T.hs                                                           \* not a macro, or painted blue
+          THEN LET r == Expand(C, R) IN Res(<<T>> \o r.o, r.f \cup (IF d # 0 THEN {"paint"} ELSE {}))
           ELSE LET M == C.env[d] IN
-            IF ~M.fl THEN Expand(C, Replace(C, M, <<>>, T.hs \cup {T.s}) \o R)
-            ELSE IF R = <<>> \/ ~IsPu(Head(R), <<"(">>) THEN <<T>> \o Expand(C, R)          \* function-like name without (
-            ELSE LET A == Scan(R, 2, 0, <<>>, <<>>, IF M.va THEN Len(M.params) ELSE 1000) IN
-              IF ~A.ok THEN <<ErrTok("I")>>                                                  \* unterminated invocation
+            IF ~M.fl THEN LET rp == Replace(C, M, <<>>, T.hs \cup {T.s})
+                              r == Expand(C, rp.o \o R)
+                          IN Res(r.o, r.f \cup rp.f \cup {"obj"} \cup (IF T.hs # {} THEN {"nested"} ELSE {}))
+            ELSE IF R = <<>> \/ ~IsPu(Head(R), <<"(">>)                                      \* function-like name without (
+            THEN LET r == Expand(C, R) IN Res(<<T>> \o r.o, r.f \cup {"fn_name_no_paren"})
+            ELSE LET A == Scan(R, 2, 0, <<>>, <<>>, IF M.va THEN Len(M.params) ELSE 1000, Head(R).hs,
+                               Cardinality(T.hs \ Head(R).hs)) IN
+              IF ~A.ok THEN Res(<<ErrTok("I")>>, {})                                         \* unterminated invocation
               ELSE LET rest == SubSeq(R, A.nxt, Len(R)) IN
                 IF \E j \in 1..Len(A.args) : AnyErr(A.args[j])
-                THEN <<FirstErr(Flat(A.args))>> \o Expand(C, rest)
-                ELSE IF ~ArgsOk(M, A.args) THEN <<ErrTok("I")>> \o Expand(C, rest)
+                THEN LET r == Expand(C, rest) IN Res(<<FirstErr(Flat(A.args))>> \o r.o, r.f)
+                ELSE IF ~ArgsOk(M, A.args) THEN LET r == Expand(C, rest) IN Res(<<ErrTok("I")>> \o r.o, r.f)
                 ELSE LET hs == IF C.pol = "A" THEN (T.hs \cap A.rhs) \cup {T.s} ELSE T.hs \cup {T.s}
                          ap == IF Len(M.params) = 0 /\ ~M.va THEN <<>> ELSE A.args
-                     IN Expand(C, Replace(C, M, ap, hs) \o rest)
+                         rp == Replace(C, M, ap, hs)
+                         r == Expand(C, rp.o \o rest)
+                         sx == T.hs \ A.rhs # {}                                             \* the name comes out of a replacement list
+                         fl == Flat(A.args)                                                  \* that ends before the closing parenthesis
+                     IN Res(r.o, r.f \cup rp.f \cup {"fn"}
+                              \cup (IF T.hs # {} THEN {"nested"} ELSE {})
+                              \cup (IF M.va THEN {"va"} ELSE {})
+                              \cup (IF sx THEN {"call_past_list_end"} ELSE {})
+                              \cup (IF A.gap >= 2 THEN {"call_past_2_list_ends"} ELSE {})
+                              \cup (IF sx /\ \E j \in 1..Len(fl) : fl[j].k = "id" /\ fl[j].s \in fl[j].hs /\ fl[j].s \notin A.rhs
+                                    THEN {"call_past_list_end_painted_arg"} ELSE {}))
 
 Spell(ts) == [i \in 1..Len(ts) |-> JoinC(ts[i].s)]
 RunMac(env, inv) ==
   LET a == Expand([env |-> env, pol |-> "A"], inv) IN
-  IF HasErr(a, "I") THEN [st |-> "I", out |-> <<>>]
-  ELSE IF HasErr(a, "U") THEN [st |-> "U", out |-> <<>>]
+  IF HasErr(a.o, "I") THEN [st |-> "I", out |-> <<>>, ft |-> {}]
+  ELSE IF HasErr(a.o, "U") THEN [st |-> "U", out |-> <<>>, ft |-> {}]
   ELSE LET b == Expand([env |-> env, pol |-> "B"], inv) IN
-       IF AnyErr(b) \/ Spell(b) # Spell(a) THEN [st |-> "U", out |-> <<>>]                   \* 6.10.3.4p4
-       ELSE [st |-> "D", out |-> Spell(a)]
+       IF AnyErr(b.o) \/ Spell(b.o) # Spell(a.o) THEN [st |-> "U", out |-> <<>>, ft |-> {"unspec_6.10.3.4p4"}]
+       ELSE [st |-> "D", out |-> Spell(a.o), ft |-> a.f]
 
 (* ---- source text of a case (the spec writes it, the harness only maps @ and $) *)
 RECURSIVE LineText(_)
@@ -253,7 +303,8 @@ BodyOk(cur, it) ==                \* 6.10.3.3p1: ## not at the beginning; no ## 
   IF it # "##" THEN TRUE ELSE IF cur = <<>> THEN FALSE ELSE ~IsPu(Last(cur), <<"#", "#">>)
 CloseOk(cur) == IF cur = <<>> THEN TRUE ELSE ~IsPu(Last(cur), <<"#", "#">>)     \* ## not at the end
 MkDef(i, k, body) == [name |-> Names[i], fl |-> k # "obj", params |-> KindParams(k), va |-> KindVa(k), body |-> body]
-NeedsSep(a, b) == a.k \in {"id", "num"} /\ b.k \in {"id", "num"}       \* tokens that must be separated by white space
+NeedsSep(a, b) ==                 \* tokens that must be separated by white space (a ")" may end an invocation whose
+  (a.k \in {"id", "num"} \/ IsPu(a, <<")">>)) /\ b.k \in {"id", "num"}       \* expansion ends in an identifier or number)
 WsChoices(cur, it) ==
   IF ~VarWs \/ cur = <<>> THEN {TRUE}
   ELSE IF NeedsSep(Last(cur), ItemTok(it, TRUE)) THEN {TRUE} ELSE {TRUE, FALSE}
@@ -288,7 +339,7 @@ MacRow ==
   LET env == [i \in 1..NM |-> MkDef(i, g.kinds[i], g.defs[i])]
       r == RunMac(env, g.cur)
   IN [fam |-> "mac", defs |-> [i \in 1..NM |-> DefText(env[i])], names |-> [i \in 1..NM |-> JoinC(Names[i])],
-      inv |-> LineText(g.cur), st |-> r.st, exp |-> r.out]
+      inv |-> LineText(g.cur), st |-> r.st, exp |-> r.out, ft |-> r.ft]
 
 (* ======================================================================= *)
 (*                 #if EXPRESSIONS  (C11 6.10.1p4, 6.6, 6.5)               *)
@@ -312,7 +363,7 @@ W2p32 == <<0, 0, 1, 0>>
 (* The boundary grid.  txt is the source text; e its meaning built from literals.  The type of a   *)
 (* literal (6.4.4.1 with all signed types = intmax_t, unsigned = uintmax_t): unsigned iff it has a *)
 (* u suffix or is a hex literal that does not fit intmax_t.                                        *)
-Atom(a) ==
+AtomDef(a) ==
   CASE a = "0" -> [txt |-> "0", e |-> Lit(10, FALSE, Zero)]
     [] a = "1" -> [txt |-> "1", e |-> Lit(10, FALSE, One)]
     [] a = "2" -> [txt |-> "2", e |-> Lit(10, FALSE, Small(2))]
@@ -353,67 +404,120 @@ AtomNames == <<"0", "1", "2", "m1", "m2", "3", "31", "32", "63", "64", "imax", "
                "p31", "p31m", "mp31", "p32", "p32m", "p63x", "p63u", "0u", "1u", "2u", "63u", "64u", "p31u", "p32u", "imaxu",
                "defD", "defU", "U", "D", "E">>
 
+AtomTab == [a \in {AtomNames[i] : i \in 1..Len(AtomNames)} |-> AtomDef(a)]     \* evaluated once
+Atom(a) == AtomTab[a]
 CmpOps == {"<", "<=", ">", ">=", "==", "!="}
-RECURSIVE UnsP(_), Eval(_)
-UnsP(e) ==                        \* the type, determined without evaluating (needed for ?: and unevaluated operands)
-  CASE e.op = "lit" -> e.usuf \/ (e.base = 16 /\ SignBit(e.v))
-    [] e.op = "atom" -> UnsP(Atom(e.f).e)
+(* Eval(e, dev): dev = {} is C11.  A non-empty dev names DEVIATION MODELS of the implementation    *)
+(* under test that were confirmed as genuine defects; they exist only so that the harness can give *)
+(* each confirmed defect its own finding key (an observed result that no model explains stays a    *)
+(* VIOLATION).  With a deviation model arithmetic wraps instead of being undefined, and a          *)
+(* division by zero or a bad shift count gives "any" (no prediction).                              *)
+(*   "cond":  the result of c ? a : b has the type of the selected arm only                        *)
+(*   "shift": << and >> apply the usual arithmetic conversions to both operands                    *)
+(*   "cmp":   relational, equality and ! results keep the (converted) operand type instead of int  *)
+(*   "lit32": a hex literal in (INT_MAX, UINT_MAX] is unsigned (typed like unsigned int)           *)
+ANYv == [t |-> "any", u |-> FALSE, v |-> Zero]
+In32u(v) == v[3] = 0 /\ v[4] = 0 /\ v[2] >= 32768
+RECURSIVE UnsP(_, _), Eval(_, _)
+UnsP(e, dev) ==                   \* the type, determined without evaluating (needed for ?: and unevaluated operands)
+  CASE e.op = "lit" -> e.usuf \/ (e.base = 16 /\ SignBit(e.v)) \/ ("lit32" \in dev /\ e.base = 16 /\ In32u(e.v))
+    [] e.op = "atom" -> UnsP(Atom(e.f).e, dev)
     [] e.op \in {"defd", "ident"} -> FALSE
-    [] e.op = "un" -> IF e.f = "!" THEN FALSE ELSE UnsP(e.a)
-    [] e.op = "bin" -> IF e.f \in CmpOps \cup {"&&", "||"} THEN FALSE
-                       ELSE IF e.f \in {"<<", ">>"} THEN UnsP(e.a)            \* 6.5.7p3: type of the left operand
-                       ELSE UnsP(e.a) \/ UnsP(e.b)                            \* usual arithmetic conversions
-    [] e.op = "cond" -> UnsP(e.b) \/ UnsP(e.c)                                \* 6.5.15p5
+    [] e.op = "un" -> IF e.f = "!" /\ "cmp" \notin dev THEN FALSE ELSE UnsP(e.a, dev)
+    [] e.op = "bin" -> IF e.f \in {"&&", "||"} THEN FALSE
+                       ELSE IF e.f \in CmpOps /\ "cmp" \notin dev THEN FALSE
+                       ELSE IF e.f \in {"<<", ">>"} /\ "shift" \notin dev THEN UnsP(e.a, dev)  \* 6.5.7p3: type of the left operand
+                       ELSE UnsP(e.a, dev) \/ UnsP(e.b, dev)                                  \* usual arithmetic conversions
+    [] e.op = "cond" -> UnsP(e.b, dev) \/ UnsP(e.c, dev)                                      \* 6.5.15p5
 
-Arith(f, u, x, y) ==              \* both operands already converted to the common type
-  CASE f = "+" -> IF ~u /\ AddOvf(x, y) THEN UBv ELSE Val(u, Add(x, y))
-    [] f = "-" -> IF ~u /\ SubOvf(x, y) THEN UBv ELSE Val(u, Sub(x, y))
-    [] f = "*" -> IF ~u /\ MulOvf(x, y) THEN UBv ELSE Val(u, Mul(x, y))
-    [] f = "/" -> IF IsZero(y) \/ (~u /\ SDivOvf(x, y)) THEN UBv ELSE Val(u, IF u THEN UDiv(x, y) ELSE SDiv(x, y))
-    [] f = "%" -> IF IsZero(y) \/ (~u /\ SDivOvf(x, y)) THEN UBv ELSE Val(u, IF u THEN URem(x, y) ELSE SRem(x, y))
+Und(dev) == IF dev = {} THEN UBv ELSE ANYv
+CmpRes(dev, u, b) == IF "cmp" \in dev THEN Val(u, IF b THEN One ELSE Zero) ELSE Bool(b)
+Arith(f, u, x, y, dev) ==         \* both operands already converted to the common type
+  CASE f = "+" -> IF ~u /\ AddOvf(x, y) /\ dev = {} THEN UBv ELSE Val(u, Add(x, y))
+    [] f = "-" -> IF ~u /\ SubOvf(x, y) /\ dev = {} THEN UBv ELSE Val(u, Sub(x, y))
+    [] f = "*" -> IF ~u /\ MulOvf(x, y) /\ dev = {} THEN UBv ELSE Val(u, Mul(x, y))
+    [] f = "/" -> IF IsZero(y) \/ (~u /\ SDivOvf(x, y)) THEN Und(dev) ELSE Val(u, IF u THEN UDiv(x, y) ELSE SDiv(x, y))
+    [] f = "%" -> IF IsZero(y) \/ (~u /\ SDivOvf(x, y)) THEN Und(dev) ELSE Val(u, IF u THEN URem(x, y) ELSE SRem(x, y))
     [] f = "&" -> Val(u, And(x, y))
     [] f = "|" -> Val(u, Or(x, y))
     [] f = "^" -> Val(u, Xor(x, y))
-    [] f = "<" -> Bool(IF u THEN ULt(x, y) ELSE SLt(x, y))
-    [] f = "<=" -> Bool(IF u THEN ULe(x, y) ELSE SLe(x, y))
-    [] f = ">" -> Bool(IF u THEN ULt(y, x) ELSE SLt(y, x))
-    [] f = ">=" -> Bool(IF u THEN ULe(y, x) ELSE SLe(y, x))
-    [] f = "==" -> Bool(x = y)
-    [] f = "!=" -> Bool(x # y)
-Shift(f, a, b) ==                 \* 6.5.7
-  IF (~b.u /\ SignBit(b.v)) \/ ~ULt(b.v, Small(64)) THEN UBv                  \* negative or >= width
-  ELSE LET n == b.v[1] IN
-    IF f = "<<" THEN IF a.u THEN Val(TRUE, Shl(a.v, n))
-                     ELSE IF ShlOvf(a.v, n) THEN UBv ELSE Val(FALSE, Shl(a.v, n))
-    ELSE IF a.u THEN Val(TRUE, LShr(a.v, n)) ELSE Val(FALSE, AShr(a.v, n))
-Eval(e) ==
-  CASE e.op = "lit" -> Val(UnsP(e), e.v)
-    [] e.op = "atom" -> Eval(Atom(e.f).e)
+    [] f = "<" -> CmpRes(dev, u, IF u THEN ULt(x, y) ELSE SLt(x, y))
+    [] f = "<=" -> CmpRes(dev, u, IF u THEN ULe(x, y) ELSE SLe(x, y))
+    [] f = ">" -> CmpRes(dev, u, IF u THEN ULt(y, x) ELSE SLt(y, x))
+    [] f = ">=" -> CmpRes(dev, u, IF u THEN ULe(y, x) ELSE SLe(y, x))
+    [] f = "==" -> CmpRes(dev, u, x = y)
+    [] f = "!=" -> CmpRes(dev, u, x # y)
+Shift(f, a, b, dev) ==            \* 6.5.7
+  LET u == IF "shift" \in dev THEN a.u \/ b.u ELSE a.u
+      bneg == (IF "shift" \in dev THEN ~u ELSE ~b.u) /\ SignBit(b.v)
+  IN IF bneg \/ ~ULt(b.v, Small(64)) THEN Und(dev)                          \* negative or >= width
+     ELSE LET n == b.v[1] IN
+       IF f = "<<" THEN IF u THEN Val(TRUE, Shl(a.v, n))
+                        ELSE IF ShlOvf(a.v, n) /\ dev = {} THEN UBv ELSE Val(FALSE, Shl(a.v, n))
+       ELSE IF u THEN Val(TRUE, LShr(a.v, n)) ELSE Val(FALSE, AShr(a.v, n))
+Eval(e, dev) ==
+  CASE e.op = "lit" -> Val(UnsP(e, dev), e.v)
+    [] e.op = "atom" -> Eval(Atom(e.f).e, dev)
     [] e.op = "defd" -> Bool(e.r)
     [] e.op = "ident" -> Val(FALSE, Zero)
     [] e.op = "un" ->
-         LET a == Eval(e.a) IN
-         IF a.t = "ub" THEN UBv
-         ELSE IF e.f = "-" THEN IF ~a.u /\ NegOvf(a.v) THEN UBv ELSE Val(a.u, Neg(a.v))
+         LET a == Eval(e.a, dev) IN
+         IF a.t # "v" THEN a
+         ELSE IF e.f = "-" THEN IF ~a.u /\ NegOvf(a.v) /\ dev = {} THEN UBv ELSE Val(a.u, Neg(a.v))
          ELSE IF e.f = "~" THEN Val(a.u, Not(a.v))
-         ELSE IF e.f = "!" THEN Bool(IsZero(a.v))
+         ELSE IF e.f = "!" THEN CmpRes(dev, a.u, IsZero(a.v))
          ELSE a
     [] e.op = "bin" ->
-         LET a == Eval(e.a) IN
-         IF a.t = "ub" THEN UBv
+         LET a == Eval(e.a, dev) IN
+         IF a.t # "v" THEN a
          ELSE IF e.f = "&&" THEN IF IsZero(a.v) THEN Bool(FALSE)              \* right operand not evaluated
-                                 ELSE LET b == Eval(e.b) IN IF b.t = "ub" THEN UBv ELSE Bool(~IsZero(b.v))
+                                 ELSE LET b == Eval(e.b, dev) IN IF b.t # "v" THEN b ELSE Bool(~IsZero(b.v))
          ELSE IF e.f = "||" THEN IF ~IsZero(a.v) THEN Bool(TRUE)
-                                 ELSE LET b == Eval(e.b) IN IF b.t = "ub" THEN UBv ELSE Bool(~IsZero(b.v))
-         ELSE LET b == Eval(e.b) IN
-              IF b.t = "ub" THEN UBv
-              ELSE IF e.f \in {"<<", ">>"} THEN Shift(e.f, a, b)
-              ELSE Arith(e.f, a.u \/ b.u, a.v, b.v)
+                                 ELSE LET b == Eval(e.b, dev) IN IF b.t # "v" THEN b ELSE Bool(~IsZero(b.v))
+         ELSE LET b == Eval(e.b, dev) IN
+              IF b.t # "v" THEN b
+              ELSE IF e.f \in {"<<", ">>"} THEN Shift(e.f, a, b, dev)
+              ELSE Arith(e.f, a.u \/ b.u, a.v, b.v, dev)
     [] e.op = "cond" ->
-         LET a == Eval(e.a) IN
-         IF a.t = "ub" THEN UBv
-         ELSE LET r == Eval(IF IsZero(a.v) THEN e.c ELSE e.b) IN
-              IF r.t = "ub" THEN UBv ELSE Val(UnsP(e), r.v)                    \* converted to the common type of both arms
+         LET a == Eval(e.a, dev) IN
+         IF a.t # "v" THEN a
+         ELSE LET r == Eval(IF IsZero(a.v) THEN e.c ELSE e.b, dev) IN
+              IF r.t # "v" THEN r
+              ELSE IF "cond" \in dev THEN r
+              ELSE Val(UnsP(e, dev), r.v)                                      \* converted to the common type of both arms
+
+(* The reference compiler gcc gives an unevaluated x / 0 or x % 0 the type of x alone (cpplib       *)
+(* returns the left operand); C11 gives it the converted type.  Where that changes the type of the *)
+(* whole expression the two oracles cannot agree and the case is dropped ("Q").                     *)
+RECURSIVE DivQuirk(_, _)
+DivQuirk(e, live) ==
+  CASE e.op = "un" -> DivQuirk(e.a, live)
+    [] e.op = "bin" ->
+         LET a == Eval(e.a, {}) IN
+         IF e.f \in {"&&", "||"}
+         THEN DivQuirk(e.a, live) \/ DivQuirk(e.b, live /\ a.t = "v" /\ (IF e.f = "&&" THEN ~IsZero(a.v) ELSE IsZero(a.v)))
+         ELSE \/ DivQuirk(e.a, live) \/ DivQuirk(e.b, live)
+              \/ /\ ~live /\ e.f \in {"/", "%"} /\ ~UnsP(e.a, {}) /\ UnsP(e.b, {})
+                 /\ LET b == Eval(e.b, {}) IN b.t = "v" /\ IsZero(b.v)
+    [] e.op = "cond" ->
+         LET a == Eval(e.a, {}) IN
+         DivQuirk(e.a, live) \/ DivQuirk(e.b, live /\ a.t = "v" /\ ~IsZero(a.v)) \/ DivQuirk(e.c, live /\ a.t = "v" /\ IsZero(a.v))
+    [] OTHER -> FALSE
+
+(* Three observations per expression e with value r: its truth, (e) == <literal of r>, and its      *)
+(* signedness by ((e) * 0 - 1) < 0.                                                                 *)
+VTxt(r) == IF r.u THEN "0x" \o Hex(r.v) \o "u"
+           ELSE IF ~SignBit(r.v) THEN "0x" \o Hex(r.v)
+           ELSE IF r.v = MinS THEN "(-0x7fffffffffffffff-1)"
+           ELSE "(-0x" \o Hex(Neg(r.v)) \o ")"
+VAst(r) == IF r.u THEN Lit(16, TRUE, r.v)
+           ELSE IF ~SignBit(r.v) THEN Lit(16, FALSE, r.v)
+           ELSE IF r.v = MinS THEN Bin("-", Un("-", Lit(16, FALSE, MaxS)), Lit(10, FALSE, One))
+           ELSE Un("-", Lit(16, FALSE, Neg(r.v)))
+Tr(v) == IF v.t = "any" THEN "?" ELSE IF v.t = "ub" THEN "!" ELSE IF IsZero(v.v) THEN "0" ELSE "1"
+Obs(e, r, dev) == <<Tr(Eval(e, dev)),
+                    Tr(Eval(Bin("==", e, VAst(r)), dev)),
+                    Tr(Eval(Bin("<", Bin("-", Bin("*", e, Lit(10, FALSE, Zero)), Lit(10, FALSE, One)), Lit(10, FALSE, Zero)), dev))>>
 
 (* ---- source text: minimal parentheses (by precedence) and full parentheses *)
 Prec(f) == CASE f = "||" -> 2 [] f = "&&" -> 3 [] f = "|" -> 4 [] f = "^" -> 5 [] f = "&" -> 6
@@ -462,12 +566,19 @@ ParseAt(pre, i) ==                \* [e |-> tree, n |-> index after it]
     [] s.t = "cond" -> LET a == ParseAt(pre, i + 1)
                            b == ParseAt(pre, a.n)
                            c == ParseAt(pre, b.n) IN [e |-> Cond(a.e, b.e, c.e), n |-> c.n]
+AllDev == {"cond", "shift", "cmp", "lit32"}
 IfRow ==
   LET e == ParseAt(g.pre, 1).e
-      r == Eval(e)
-  IN [fam |-> "if", min |-> Txt(e, 1, FALSE), full |-> Txt(e, 1, TRUE), n |-> Len(g.pre),
-      st |-> IF r.t = "ub" THEN "U" ELSE "D",
-      u |-> r.u, v |-> Hex(r.v), nz |-> ~IsZero(r.v)]
+      r == Eval(e, {})
+      o == <<Tr(r), "1", IF r.u THEN "0" ELSE "1">>      \* = Obs(e, r, {}): (e) == <its value> holds, signed iff ~u
+      oa == Obs(e, r, AllDev)
+  IN IF r.t = "ub" THEN [fam |-> "if", min |-> Txt(e, 1, FALSE), st |-> "U"]
+     ELSE IF DivQuirk(e, TRUE) THEN [fam |-> "if", min |-> Txt(e, 1, FALSE), st |-> "Q"]
+     ELSE [fam |-> "if", min |-> Txt(e, 1, FALSE), full |-> Txt(e, 1, TRUE), n |-> Len(g.pre), st |-> "D",
+           u |-> r.u, v |-> Hex(r.v), vtxt |-> VTxt(r), obs |-> o,
+           alt |-> IF oa = o THEN [all |-> oa]
+                   ELSE [cond |-> Obs(e, r, {"cond"}), shift |-> Obs(e, r, {"shift"}), cmp |-> Obs(e, r, {"cmp"}),
+                         lit32 |-> Obs(e, r, {"lit32"}), all |-> oa]]
 
 (* ======================================================================= *)
 (*                  CONDITIONAL INCLUSION  (C11 6.10.1)                    *)
